@@ -22,3 +22,12 @@ CHECKS = {}
 
 def reg(pid, **kw):
     CHECKS[pid] = kw
+
+reg('C02', engine='llsym',
+    text='Bounded symbolic execution (own LLVM-IR executor + z3) of the real bit-field kernels with symbolic width, '
+         'shift, storage word and Python int: every obligation of the statement (range-exact accept/reject, '
+         'round-trip, isolation, read == C semantics) is a solver query over all values; no sampling.',
+    note='Trusted: clang-14 IR of src/c/_cffi_backend.c at -O0+mem2reg, llsym semantics (validated concretely '
+         'against the real build on every run), CPython API contracts in vf/pystubs.py, placement invariant '
+         'bitshift+bitsize<=8*size (established by C01). _Bool limited to width 1.',
+    technique='symbolic execution of LLVM IR, SMT (z3 bit-vectors), counterexample replay on the real build')
